@@ -189,7 +189,10 @@ func genRigCase(r *rng.R) rigIn {
 					// a repeated query parameter: every element type has its own conversion block per engine
 					q.ty = "[]" + rng.Pick(r, []string{"string", "int", "int64", "uint8", "float64", "float32", "bool", "float64"})
 				}
-				if q.ty == "string" && r.Chance(1, 3) {
+				if q.ty == "string" && !q.ptr && r.Chance(1, 3) {
+					// (not on an optional parameter: go-playground hands a nil pointer to every rule that is not preceded by
+					// `omitempty`, so an ABSENT optional parameter with a `oneof` is answered 422 by all five engines - the tag's
+					// own semantics, see DESIGN §0.5 - and the model of `bindParam` does not carry that)
 					q.validate = rigOneof
 				}
 				params = append(params, q)
